@@ -311,7 +311,7 @@ pub fn c12_inherent_edge_list_n3() {
 }
 
 // AdjacencyList incl. the threaded is_semicomplete with 2 worker threads.
-// @verif prop=C12 tier=quick fl=f2 role=inherent/adjacency-list t=1500 mem=14
+// @verif prop=C12 tier=quick fl=f2 role=inherent/adjacency-list t=1500 mem=14 par=2
 #[cfg_attr(kani, kani::proof)]
 #[cfg_attr(kani, kani::unwind(8))]
 pub fn c12_inherent_adjacency_list_n3_t2() {
